@@ -27,6 +27,19 @@ ASSUMPTIONS = ["texts are single-line without '\\n'/'\\r'", "flush() is called w
 FLOORS = {"gap": (0.3, "seq")}
 SHARDS = {"quick": 12, "thorough": 14}
 CASE_FUEL = None
+WALL_GUARD = {"quick": 1500, "thorough": 8 * 3600}
+
+
+def shard_setup(shard, nshards):
+    from . import poolcases
+    poolcases.pin_shard(shard, nshards)
+
+
+def minimize(case, sig):
+    if case.get("kind") == "conc":
+        from . import c14_sched
+        return c14_sched.minimize(case, sig)
+    return case
 
 TEXTS = ["a", "b", "text é", "€𝄞", "x y", "\tz", "0", "line, with; punctuation", "A" * 200, ""]
 SEQ_OPS = ["store", "store", "store", "read", "read", "len", "contig", "list", "reopen", "flush", "store", "read", "list", "store"]
